@@ -64,6 +64,6 @@ Spec == Init /\ [][Next]_vars
 Trace == [tid |-> 0, kind |-> IF Side = "S" THEN "src" ELSE "dst", cfg |-> cfg, props |-> Props, ev |-> tr,
           fs0 |-> SetToSeq(Fs0(cfg)), nfaults |-> 0, ncorrupt |-> 0, done |-> TRUE]
 Bad == { v \in Violations(Trace) : <<v.prop, v.clause>> \notin Allowed }
-NoViolation == Bad = {} \/ PrintT(<<"MODELVIOLATION", Bad, ins>>) = FALSE
+NoViolation == Bad = {} \/ (PrintT(<<"MODELVIOLATION", Bad, ins>>) /\ PrintT("VSOLO" \o ToJson([c |-> cfg.id, ins |-> ins])) /\ FALSE)
 EmitSeq == (Emit /\ Len(ins) = Depth) => PrintT("SOLO" \o ToJson([c |-> cfg.id, ins |-> ins]))
 ====
